@@ -55,12 +55,20 @@ def trace_records(trace_dir):
 
 
 def case(name, yaml_text, extra, sinks, expect, want_code=None, fail_at=None):
-    """expect: 'nothing' (rejected / no execution requested), 'all' (every run executes), 'upto' (runs < fail_at only)"""
+    """expect: 'nothing' (rejected / no execution requested), 'all' (every run executes), 'upto' (runs < fail_at only).
+    A case that must execute nothing is run twice: with the trace output given as a directory and as a single file."""
+    _case(name, yaml_text, extra, sinks, expect, want_code, fail_at, "dir")
+    if expect == "nothing" and "--trace.driver" not in extra:
+        _case(name + "/trace-to-a-file", yaml_text, extra, sinks, expect, want_code, fail_at, "file")
+
+
+def _case(name, yaml_text, extra, sinks, expect, want_code, fail_at, trace_mode):
     global evaluations
     evaluations += 1
     d = root / f"c{evaluations}"
     d.mkdir()
-    trace_dir = d / "trace"
+    trace_root = d / "trace"
+    trace_dir = trace_root if trace_mode == "dir" else trace_root / "sub" / "run.ser.jsonl"
     cfg = d / "p.yaml"
     sink_paths = [d / s for s in sinks]
     cfg.write_text(yaml_text.replace("{out}", str(sink_paths[0]) if sink_paths else "").replace("{dir}", str(d)))
@@ -68,8 +76,9 @@ def case(name, yaml_text, extra, sinks, expect, want_code=None, fail_at=None):
         else ["run", str(cfg), *extra, "-q"]
     code, out, err = run_cli(argv)
     written = [p.exists() for p in sink_paths]
-    recs = trace_records(trace_dir)
-    info = {"case": name, "argv": extra, "exit": code, "sinks_written": written, "trace_records": len(recs)}
+    recs = trace_records(trace_root)
+    trace_files = [str(p.relative_to(d)) for p in trace_root.rglob("*") if p.is_file()] if trace_root.exists() else []
+    info = {"case": name, "argv": extra, "exit": code, "sinks_written": written, "trace_records": len(recs), "trace_files": trace_files}
     distinct.add(name)
     if code not in DOCUMENTED:
         failures.append(dict(info, **{"class": "undocumented-exit-code", "stderr": err[-300:]}))
@@ -77,6 +86,8 @@ def case(name, yaml_text, extra, sinks, expect, want_code=None, fail_at=None):
     if expect == "nothing":
         if any(written) or any(r.get("record_type") in ("pipeline_start", "ser", "pipeline_end", "run_space_start") for r in recs):
             failures.append(dict(info, **{"class": "executed-although-rejected-or-no-execution-requested:" + name.split("/")[0]}))
+        elif trace_files:
+            failures.append(dict(info, **{"class": "trace-file-left-although-nothing-was-executed"}))
         elif want_code is not None and code != want_code:
             failures.append(dict(info, **{"class": f"wrong-exit-code:{name.split('/')[0]}", "want": want_code, "stderr": err[-300:]}))
     elif expect == "all-or-rejected" and code == 3:
